@@ -121,6 +121,8 @@ class Gen(Instrumented, Config):
     subs: Param[List["Gen"]] = []
     named: Param[Dict[str, "Gen"]] = {}
     lds: Param[List[Dict[str, "Gen"]]] = []
+    dls: Param[Dict[str, List["Gen"]]] = {}
+    dds: Param[Dict[str, Dict[str, "Gen"]]] = {}
 
 
 class Artifact(Instrumented, Config):
